@@ -155,7 +155,14 @@ def run(repo: Repo, rep: Report, tier: str) -> None:
         st = ci.setters.get(prop)
         rep.need(st is not None, f"{cname}.{prop} setter vanished")
         ws = [s for s in walk_no_nested(st) if isinstance(s, ast.Assign) and norm(s.targets[0]) == f"self.{field}"]
-        ok = len(ws) == 1 and call in norm(ws[0].value)
+        ok = False
+        if len(ws) == 1:
+            from ..loader import bind_args
+            sa_fn = repo.func("utils", "set_ae")
+            for c_ in [c_ for c_ in ast.walk(ws[0].value) if isinstance(c_, ast.Call) and dotted(c_.func) == "set_ae"]:
+                b_ = bind_args(c_, sa_fn)
+                # the value stored is the setter's argument, validated, and neither empty nor None is let through
+                ok = norm(b_.get("value")) == st.args.args[1].arg and isinstance(b_.get("allow_empty"), ast.Constant) and b_["allow_empty"].value is False and isinstance(b_.get("allow_none"), ast.Constant) and b_["allow_none"].value is False
         rep.check(ok, "strings", f"{mname}.{cname}.{prop}:setter", ws[0] if ws else f"self.{field} = ?", "the title must be stored through set_ae(.., allow_empty=False, allow_none=False): validated and not all spaces", mod=m, node=st)
         # who else writes the field
         for n in ast.walk(ci.node):
